@@ -717,6 +717,11 @@ def run(ctx: Ctx):
     r_path(ctx, model)
     r_spline(ctx, model)
     r_data(ctx, model)
+    # the kernel cache: write-once, guarded, keyed by the full path (two kernel files never share an entry) - shared with C04 R-module
+    from ..effects import Effects
+    from .C04 import r_module
+    eps = [f for n_, f in model.module(PK).functions.items()]
+    r_module(ctx, model, Effects(model), eps, prop="C18", rule="K-fresh", write_once=[f"{PK}._LOADED"], memo=False)
     from ..sites import no_memoisation
     ctx.rule("K-fresh: no caching decorator on any function of pygaps.characterisation.")
     no_memoisation(ctx, load(ctx.root), "C18", "K-fresh", ('pygaps.characterisation.',),
